@@ -318,6 +318,48 @@ def check_centroid2(case, ctx):
                 'two impulses %s w=%d, %s w=%d in %s dx=%g: centroid %r expected %r' % (p1, w1, p2, w2, [ny, nx], dx, tuple(map(float, c)), want))
 
 
+
+# ---- returned coordinate arrays are the caller's own (no aliasing with library state) -------------------
+def strat_fresh(tier):
+    ax = U.axis_len({'quick': 24, 'thorough': 64}[tier])
+    return st.fixed_dictionaries({'shape': st.one_of(st.tuples(ax, ax).map(list), ax.map(lambda k: [k, k])),
+                                  'dx': st.sampled_from([1.0, 0.1, 0.37, 2.5]), 'grid': st.booleans(),
+                                  'how': st.sampled_from(['add', 'scale', 'zero']), 'prec': st.sampled_from([64, 64, 32])})
+
+
+def check_fresh(case, ctx):
+    """a caller changing a returned grid / vector in place (prysm.x.shack_hartmann does this with `x += pitch/2`) must not change any later grid: the same request again still has its exact zero at n//2."""
+    from prysm.coordinates import make_xy_grid
+    from prysm._richdata import RichData
+    shape, dx, grid, how = tuple(case['shape']), case['dx'], case['grid'], case['how']
+    ctx.nt(not grid or shape[0] % 2 == 1 or shape[1] % 2 == 1)
+    ctx.label('grid' if grid else 'vectors', 'how:' + how)
+    with U.precision(case['prec']):
+        rt = 1e-6 if case['prec'] == 32 else 1e-12
+        x, y = ctx.call(make_xy_grid, shape, dx=dx, grid=grid)
+        x = np.asarray(x)
+        y = np.asarray(y)
+        if how == 'add':
+            x += dx / 2
+            y -= 3 * dx
+        elif how == 'scale':
+            x *= 2.0
+            y *= -1.0
+        elif how == 'zero':
+            x[...] = 7.0
+            y[...] = 7.0
+        x2, y2 = ctx.call(make_xy_grid, shape, dx=dx, grid=grid)
+        wx = U.cvec(shape[1]) * dx
+        wy = U.cvec(shape[0]) * dx
+        if grid:
+            wx, wy = np.broadcast_to(wx, shape), np.broadcast_to(wy[:, None], shape)
+        U.check_close(x2, wx, rt, 'make_xy_grid:aliased-state', 'x after an earlier caller modified its own copy in place (%s)' % how)
+        U.check_close(y2, wy, rt, 'make_xy_grid:aliased-state', 'y after an earlier caller modified its own copy in place (%s)' % how)
+        rd = RichData(np.zeros(shape), dx, 0.5)
+        U.check_close(rd.x, np.broadcast_to(U.cvec(shape[1]) * dx, shape), rt, 'RichData.x:aliased-state', 'RichData.x after in-place edits of earlier grids')
+        ctx.require(np.asarray(rd.x)[0, shape[1] // 2] == 0 and np.asarray(rd.y)[shape[0] // 2, 0] == 0, 'RichData:zero', 'no exact zero at n//2')
+
+
 CLAUSES = [
     EnumClause('pad_axis', enum_pad, check_pad_axis),
     EnumClause('crop_axis', enum_crop, check_crop_axis),
@@ -325,4 +367,5 @@ CLAUSES = [
     EnumClause('grids', enum_grids, check_grids),
     EnumClause('centroid', enum_centroid, check_centroid),
     HypClause('centroid2', strat_centroid2, check_centroid2, examples={'quick': 300, 'thorough': 3000}),
+    HypClause('grids_not_aliased', strat_fresh, check_fresh, examples={'quick': 300, 'thorough': 2000}),
 ]
